@@ -273,3 +273,5 @@ def run(ctx):
             ctx.check("deserialize_struct" not in x["items"], "R5.4", f"{x['file']}:{x['line']}", f"{tystr(x['self_ty'])}|no-struct-interception",
                       f"client behaviour {tystr(x['self_ty'])} overrides deserialize_struct; clients must ignore unknown fields",
                       instance=f"{fmt} client {tystr(x['self_ty'])}: deserialize_struct not overridden")
+    # R5.5 every convenience entry point runs the value through the Conjure deserializer of its own flavour (shared with C01)
+    ctx.include(c01, {"R1.6"}, "R5.5", "a server entry point that deserializes through anything but the strict Conjure server deserializer accepts unknown fields")
